@@ -20,6 +20,17 @@ CLAIMED = {
         "Tie: byte-exact correspondence with writeSetFL / SetFL_EAMTabulation (recording callables) and potable setfl / lammps_eam_alloy; builder order vs the built tabulation.",
    note="Trusted: Coq kernel; translator printing + exact-body assertions of the builder glue; harness renderer; species ids are ranks of labels. No axioms.",
    technique="Coq proof over layout/builder models + byte-exact vm_compute correspondence", ref="DESIGN.md section 4 C03"),
+ 'C04': dict(
+   text="Coq theorems: in the setfl eam/fs layout the block of element b holds, in order, the functions EAMPotential(o).electronDensityFunction[b] for o in element order, so the consumer's rule (site alpha, neighbour beta -> alpha-th array of beta's block) returns the function declared for central alpha / neighbour beta (c04_lammps_fs); "
+        "TABEAM EEAM blocks 'dens A B' and Excel columns 'A->B' hold the function of central A / neighbour B; hence per-atom densities of any cluster agree (c04_cluster); the transposed layout is shown to differ. "
+        "Tie: byte-exact correspondence of the three FS writers with an independent recording function per ordered pair; potable A->B entries as distinct constants read back from built objects and files.",
+   note="Trusted: Coq kernel; the consumers' indexing rules (spec/Consumers.v) are ASSUMED from the formats' definitions; harness. No axioms.",
+   technique="Coq proof over layout models + consumer-rule specification + byte-exact vm_compute correspondence", ref="DESIGN.md section 4 C04"),
+ 'C05': dict(
+   text="Coq theorems over the TABEAM layout model: the number of block headers written equals n(n+1)/2 pair + n embe + n (EAM) or n^2 (EEAM) dens blocks for every number of elements, and the declared counts regenerated from the source (n(n+5)/2, 3n(n+1)/2) equal it (c05_count_eam, c05_count_eeam); "
+        "one pair block per unordered pair (zero-filled when undeclared, last declaration in either order), headers n / 0.0 / (n-1)*step, n values at i*step in rows of four. Tie: byte-exact correspondence (writeTABEAM*, tabulation classes, potable DL_POLY_EAM / DL_POLY_EAM_fs).",
+   note="Trusted: Coq kernel; translator printing; elements distinct (the pair set is modelled as the sorted triangle of the sorted species); harness. No axioms.",
+   technique="Coq proof over layout model with translated count expressions + byte-exact vm_compute correspondence", ref="DESIGN.md section 4 C05"),
  'C06': dict(
    text="Coq theorems `<form>_call = spec_<form>` for all 15 built-in forms (polynomial for every order by induction on the coefficient list; Tang-Toennies as 'exact for the ideal constants' + 'every literal within 1e-13 of its ideal'), "
         "where <form>_call is regenerated from potentialfunctions.py on every run by the translator (which refuses a signature that differs from the documented parameter order) and spec_<form> is the documented closed form. "
@@ -40,6 +51,16 @@ CLAIMED = {
         "Tie to the code: translator + vm_compute correspondence against Multi_Range_Potential_Form and potable [Pair] definitions. The statement without the distinct-key hypothesis is refuted in Coq (known finding C08-dupkey).",
    note="Trusted: Coq kernel; tools/py2coq.py printing; floats abstracted by order-isomorphic integers (code only compares); stable-sort model of list.sort; harness generators. No axioms.",
    technique="Coq proof over translated (py2coq) decision procedures + vm_compute correspondence", ref="DESIGN.md section 4 C08"),
+ 'C17': dict(
+   text="Coq theorem (lib/Effects.v): for a writer whose effects are 'all evaluations, then one write of the whole table', a fault at ANY evaluation position k leaves nothing written, for every layout (instantiated for all targets); a piecewise writer (GULP / ADP before their repair) is refuted in Coq. "
+        "Tie: on every run the recorded interleaving of evaluations and write() calls of every writer must be exactly that sequence, a fault is injected at every evaluation position of small generated tables, and potable is run on every target with a formula that leaves its domain part-way (exit status, output file empty or absent).",
+   note="Trusted: Coq kernel; that each writer's effects are the modelled sequence is a per-run behavioural check, not a translation; OS-level file behaviour and runtime faults (MemoryError, signals) are outside the model. No axioms.",
+   technique="Coq proof over an effect model + exhaustive fault injection correspondence", ref="DESIGN.md section 4 C17"),
+ 'C19': dict(
+   text="Coq theorems over the layout models of the secondary targets: GULP blocks ('spline cubic', 'A B cutoff', nr rows 'energy separation' at r_i = i*cutoff/(nr-1)); ADP = setfl of the same model followed by unscaled dipole then quadrupole blocks for pairs (i, j<=i), zero when undeclared, either order; "
+        "funcfl header = grid tabulated and (Z^2 * 27.2 * 0.529 / r = phi) over the reals; Excel sheets with r/rho in the first column on the tabulation grid and every cell the labelled function at that row. Tie: byte-exact / cell-by-cell correspondence for API and potable routes (nrho != nr generated deliberately).",
+   note="Trusted: Coq kernel; Reals axioms + classic for the funcfl identity only; translator printing; openpyxl to read workbooks back; harness.",
+   technique="Coq proof over layout models + byte-exact vm_compute correspondence", ref="DESIGN.md section 4 C19"),
 }
 PENDING_REASON = "check not built yet in this round (planned in DESIGN.md section 4); nothing is claimed for it"
 props = [json.loads(l)['id'] for l in open(os.path.join(HERE, 'properties.jsonl'))]
